@@ -75,6 +75,7 @@ func TestC12_Ramp(t *testing.T) {
 		var a, den int64 // passed / refused since recovery began
 		trips, standbys := int64(0), int64(0)
 		recRequests, recInstants, recPassed, recRefused := 0, map[time.Duration]bool{}, 0, 0
+		failedSinceRecovering := 0 // responses other than 200 completed since the breaker was last seen entering recovery
 		best := 0 // best (requests during one recovery with both outcomes and >=3 instants)
 		boundary := 0
 
@@ -88,12 +89,16 @@ func TestC12_Ramp(t *testing.T) {
 				if step != "finish" {
 					t.Fatalf("trip on a %s step\n%s", step, d.History())
 				}
+				if prev == "recovering" && failedSinceRecovering == 0 {
+					t.Fatalf("the breaker tripped out of recovery at +%v although every response completed since the recovery began was a success (the condition is NetworkErrorRatio() > 0.5 and statistics start afresh with every state change)\n%s", d.Now, d.History())
+				}
 				shieldFrom, shieldUntil, recStart = d.Now, d.Now+F, -1
 				trips++
 				if !d.OnTripped.WaitFor(trips) {
 					t.Fatalf("on-tripped effect did not run\n%s", d.History())
 				}
 			case "tripped>recovering":
+				failedSinceRecovering = 0
 				if step != "start" || d.Now < shieldUntil {
 					t.Fatalf("breaker left tripped at +%v on a %s step; fallback period ends +%v\n%s", d.Now, step, shieldUntil, d.History())
 				}
@@ -175,6 +180,9 @@ func TestC12_Ramp(t *testing.T) {
 			}
 		}
 		finish := func(i, status int) {
+			if status != 200 {
+				failedSinceRecovering++
+			}
 			d.Finish(i, status)
 			observe("finish")
 		}
@@ -710,6 +718,9 @@ func TestC12_RetripThenHeal(t *testing.T) {
 		expr := rapid.SampledFrom([]string{"NetworkErrorRatio() > " + thr, "ResponseCodeRatio(500, 600, 0, 600) > " + thr}).Draw(t, "expr")
 		d := cbh.New(t, expr, F, R, time.Millisecond, time.Duration(rapid.Int64Range(0, int64(time.Second)-1).Draw(t, "phase")))
 		defer d.Close()
+		// the healed backend may answer without ever calling WriteHeader (net/http's implicit 200),
+		// while the failures before it named their status explicitly
+		d.ImplicitOK = rapid.Bool().Draw(t, "implicit200")
 		ms := func(x time.Duration) int64 { return int64(x / time.Millisecond) }
 		one := func(status int) bool {
 			if !d.Start() {
